@@ -13,6 +13,32 @@ use crate::post_linter::post_conversion_linter::PostConversionLinter;
 pub struct ConditionTypeLinter {}
 
 impl ConditionTypeLinter {
+    fn visit_bare_expression(&mut self, e: &Expression) -> Result<(), LintErrorPos> {
+        // the subscripts of an array element are numeric
+        match e {
+            Expression::ArrayElement(_, indices, _) => {
+                for index in indices {
+                    Self::ensure_expression_is_condition(index)?;
+                    self.visit_expression(index)?;
+                }
+                Ok(())
+            }
+            // the element of an array of records: A(1).F
+            Expression::Property(left, _, _) => self.visit_bare_expression(left),
+            Expression::BinaryExpression(_, left, right, _) => {
+                self.visit_expression(left)?;
+                self.visit_expression(right)
+            }
+            Expression::UnaryExpression(_, child) | Expression::Parenthesis(child) => {
+                self.visit_expression(child)
+            }
+            Expression::FunctionCall(_, args) | Expression::BuiltInFunctionCall(_, args) => {
+                self.visit_expressions(args)
+            }
+            _ => Ok(()),
+        }
+    }
+
     fn ensure_expression_is_condition(expr_pos: &ExpressionPos) -> Result<(), LintErrorPos> {
         match expr_pos.expression_type() {
             ExpressionType::BuiltIn(q) => {
@@ -35,27 +61,7 @@ impl PostConversionLinter for ConditionTypeLinter {
     }
 
     fn visit_expression(&mut self, e: &ExpressionPos) -> Result<(), LintErrorPos> {
-        // the subscripts of an array element are numeric
-        match &e.element {
-            Expression::ArrayElement(_, indices, _) => {
-                for index in indices {
-                    Self::ensure_expression_is_condition(index)?;
-                    self.visit_expression(index)?;
-                }
-                Ok(())
-            }
-            Expression::BinaryExpression(_, left, right, _) => {
-                self.visit_expression(left)?;
-                self.visit_expression(right)
-            }
-            Expression::UnaryExpression(_, child) | Expression::Parenthesis(child) => {
-                self.visit_expression(child)
-            }
-            Expression::FunctionCall(_, args) | Expression::BuiltInFunctionCall(_, args) => {
-                self.visit_expressions(args)
-            }
-            _ => Ok(()),
-        }
+        self.visit_bare_expression(&e.element)
     }
 
     fn visit_for_loop(&mut self, f: &ForLoop) -> Result<(), LintErrorPos> {
